@@ -9,6 +9,42 @@ from ..common import WORK, NPROC, pool_map
 from ..design import build, proj_package
 
 EMPTY_P = {"mods": {}, "order": [], "leaves": {}, "exts": [], "top": ""}
+NETLIST_EVERY = 0          # k > 0: every k-th exported design is also netlisted (spice) and the netlist read back positionally (Netlist!NetlistDiff)
+
+
+def parse_spice(text):
+    """A SPICE netlist as written by the vlsirtools netlister -> {"subs": {name: {"ports": [...], "insts": [{"n", "nets", "of"}]}}, "top": last sub-circuit}.
+    Purely positional and lexical: instance = name line, '+' line of nets, '+' line naming what is instantiated (parameter lines follow)."""
+    subs, cur, top = {}, None, ""
+    lines = [ln.rstrip() for ln in text.splitlines()]
+    i = 0
+    while i < len(lines):
+        ln = lines[i].strip()
+        if ln.upper().startswith(".SUBCKT"):
+            name = ln.split()[1]
+            cur = {"ports": [], "insts": []}
+            subs[name] = cur
+            top = name
+            if i + 1 < len(lines) and lines[i + 1].startswith("+"):
+                cur["ports"] = lines[i + 1][1:].split()
+                i += 1
+        elif ln.upper().startswith(".ENDS"):
+            cur = None
+        elif cur is not None and ln and ln[0] not in "*+.":
+            plus = []
+            j = i + 1
+            while j < len(lines) and (lines[j].startswith("+") or lines[j].startswith("*")):
+                if lines[j].startswith("+"):
+                    plus.append(lines[j][1:].split())
+                j += 1
+            nets = plus[0] if plus else []
+            of = plus[1][0] if len(plus) > 1 and plus[1] else ""
+            if nets and nets[0].startswith("*"):
+                nets = []           # "+ * No ports"
+            cur["insts"].append({"n": ln[1:], "nets": nets, "of": of})
+            i = j - 1
+        i += 1
+    return {"subs": subs, "top": top}
 
 
 def run_design(args):
@@ -21,6 +57,14 @@ def run_design(args):
         pkg = h.to_proto(top)
         ev["P"] = proj_package(pkg, D["top"])
         ev["accepted"].append("to_proto")
+        if NETLIST_EVERY and tid % NETLIST_EVERY == 0:
+            try:
+                import vlsirtools
+                buf = io.StringIO()
+                vlsirtools.netlist(pkg=pkg, dest=buf, fmt="spice")
+                ev["N"] = parse_spice(buf.getvalue())
+            except Exception as ex:
+                ev["netlist_exc"] = f"{type(ex).__name__}: {str(ex)[:120]}"
     except Exception as ex:
         ev["raised"] = True
         ev["exc"] = f"{type(ex).__name__}: {str(ex).strip().splitlines()[-1][:200] if str(ex).strip() else ''}"
